@@ -64,14 +64,18 @@ def rnd_criteria(rng, refs):
     ks = []
     for _ in range(rng.choice([1, 1, 2])):
         ref = rng.choice(refs)
-        if rng.random() < 0.8:
+        if rng.random() < 0.7:
             ks.append(["cmp", {"ref": ref, "op": rng.choice(["==", "==", "==", ">=", "<", "!="]), "lit": str(rng.choice([0, 1, 2, 3])),
                                "cal": rng.random() < 0.5}])
         else:
             other = rng.choice(refs)
             tree = [rng.choice(["and", "or"]),
-                    [{"left": ref, "op": rng.choice(["==", ">", "<="]), "lcal": True, "rvalue": str(rng.choice([0, 1, 2]))},
-                     {"left": ref, "op": "!=", "lcal": False, "rparam": other, "rcal": False}], []]
+                    [{"left": ref, "op": rng.choice(["==", ">", "<="]), "lcal": rng.random() < 0.5, "rvalue": str(rng.choice([0, 1, 2]))},
+                     {"left": ref, "op": rng.choice(["!=", "<=", "=="]), "lcal": rng.random() < 0.5, "rparam": other, "rcal": rng.random() < 0.5}],
+                    [] if rng.random() < 0.6 else [[("or" if True else "and"), [{"left": other, "op": ">=", "lcal": rng.random() < 0.5,
+                                                                               "rparam": ref, "rcal": rng.random() < 0.5}], []]]]
+            if tree[0] == "or" and tree[2]:
+                tree[2][0][0] = "and"
             ks = [["bool", ["tree", tree]]]
             break
     return ks
